@@ -245,6 +245,13 @@ ASYNC_WRITE_KANI = [
 QPACK_LOOKUP_QUICK = K("p_qpack_lookup_index_exact_value", "lookup_index answers KeyValue (indexed field line) only for an EXACT value match: values differing by letter case are name references",
                        [P + "qpack.rs::StaticTable::lookup_index"], kind="bounded", bound="3 listed (name, value) pairs")
 
+CANCEL_KANI = [
+    K("p_get_varint_cancel_keeps_input", "C05 cancellation contract on the leaf future: a GetVarint dropped while Pending has taken nothing out of the source (FAILS on the unchanged tree: known finding D6)",
+      [P + "bytes.rs::r#async::<GetVarint as Future>::poll"]),
+    K("p_get_buffer_cancel_keeps_input", "same for GetBuffer (destination <= 8 bytes)", [P + "bytes.rs::r#async::<GetBuffer as Future>::poll"],
+      kind="bounded", bound="buffer length <= 8"),
+]
+
 MISC_KANI = [
     K("c_error_code_to_code", "in-place contract: 15 error codes == IANA / draft registry values", [P + "error.rs::ErrorCode::to_code"]),
     K("p_alpn_is_h3", "ALPN token is h3", [P + "lib.rs::WEBTRANSPORT_ALPN"]),
@@ -304,6 +311,14 @@ PROPS = {
         "kani": CAPSULE_KANI + DRIVER_CLOSE + [ASYNC_LEAF_KANI[1]],
         "verus": [V("capsule", pair=("proto", "p_capsule_with_frame")), V("driver_streams"), V("connection")],
         "not_decided": ["ConnectStream::run", "ApplicationClose from quinn::ConnectionError"],
+    },
+    "C05": {
+        "level": "proof",
+        "claim": "Two halves. (a) SEGMENTATION - decided, holds: a control-plane reader that is polled to completion gives the same result however the peer's bytes are chunked and however often the source reports Pending (one-step inductive poll contracts of the leaf futures from ANY state, Kani; Frame::read_async and the read_frame_async loops as sequential compositions for inputs of any length, Verus unit frame_async; the stream run loops over every sequence of read results, unit driver_streams). (b) INTERLEAVING / cancellation - decided, VIOLATED on the unchanged tree (known finding D6): the contract 'every leaf read of Frame::read_async is started with nothing consumed since the frame began' (Verus unit cancel_safety) fails at its 2nd and 3rd reads, and a leaf future dropped while Pending loses the bytes it took (Kani p_get_*_cancel_keeps_input, concrete counterexamples replayed natively); Worker::run_impl drops the pending control-stream readers whenever another select! branch completes. Demonstrated on the real code by findings/D6-demo/demo_c05.rs (SETTINGS or a close capsule split in two with a datagram / stream in between => H3 error or lost close code).",
+        "note": "The step from 'the reader future is not cancel-safe' to 'the driver cancels it' is by reading Worker::run_impl (tokio::select! is a macro outside both verifiers) and by the demonstration; the contract itself is checked on the real code. NOT decided: which events the worker reacts to in which order (schedules), the request stream's first frame (read in a spawned task, not in the select! loop).",
+        "kani": ASYNC_LEAF_KANI[:3] + CANCEL_KANI,
+        "verus": [V("cancel_safety"), V("frame_async"), V("driver_streams")],
+        "not_decided": ["schedules of the select! loop", "tokio::select! semantics (by reading)"],
     },
     "C06": {
         "level": "proof",
@@ -464,7 +479,6 @@ def setup():
 
 
 NOT_APPLICABLE = {
-    "C05": "property of tokio::select! schedules in Worker::run_impl over concrete quinn streams; Kani has no async runtime/threads and quinn streams cannot be constructed without a connection. The pieces it rests on are under contract elsewhere: leaf futures (C15), the stream run loops and synchronous handlers of the driver as sequential compositions over every sequence of read results (C04, C12, C13).",
     "C07": "liveness/independence over task interleavings (stalled streams never block others): whole-history concurrency property, outside contract-based deductive verification (no Kani threads, Verus would need permission types on tokio internals).",
     "C08": "exactly-once delivery over mpsc queues, cancellation and multi-task accept: whole-history concurrency property, no per-call contract expresses it.",
 }
